@@ -35,6 +35,8 @@ type rigOpts struct {
 	useRoles      bool
 	perturb       func(cp, role string) int
 	epoch         time.Time // instant of virtual time zero (zero value: sim.Epoch)
+	noConnCloseN  int       // WithNoConnClose given this many times in all (0: once when noConnClose is set)
+	agentKeeps    bool      // the agent's Close fails without flushing its table
 }
 
 func (o rigOpts) String() string {
@@ -55,6 +57,8 @@ func (o rigOpts) String() string {
 	add(o.collNoWait, "collector-close-does-not-wait")
 	add(o.realClock, "system-clock")
 	add(!o.epoch.IsZero(), "epoch="+o.epoch.UTC().Format(time.RFC3339Nano))
+	add(o.noConnCloseN > 1, fmt.Sprintf("no-conn-close-given-%d-times", o.noConnCloseN))
+	add(o.agentKeeps, "agent-close-fails-without-flushing")
 	if len(s) == 0 {
 		return "default"
 	}
@@ -172,6 +176,7 @@ func newRig(o rigOpts) (*rig, error) {
 	if !o.defaultAgent {
 		r.agent = sim.NewTapAgent(w)
 		r.agent.CloseErr = o.agentCloseErr
+		r.agent.CloseKeepsTable = o.agentKeeps
 		r.agent.VirtualClock = !o.realClock
 		if o.noConnClose {
 			// precondition of C15 under WithNoConnClose: the connection's Read eventually returns
@@ -187,6 +192,9 @@ func newRig(o rigOpts) (*rig, error) {
 	}
 	if o.noConnClose {
 		options = append(options, stun.WithNoConnClose())
+		for k := 1; k < o.noConnCloseN; k++ {
+			options = append(options, stun.WithNoConnClose()) // saying it again does not unsay it
+		}
 	}
 	if o.fallback {
 		options = append(options, stun.WithHandler(r.fallbackHandler))
